@@ -60,6 +60,15 @@ func c16Options(sc c16Scenario, pop int) *neat.Options {
 		// the optional NewLinkTries left at its zero value (a configuration that never adds a link)
 		o.MutateOnlyProb, o.MutateAddNodeProb, o.MutateAddLinkProb, o.NewLinkTries = 1, 0, 1, 0
 		o.RecurOnlyProb = 0.5
+	case "traits":
+		// half of the babies are mutated copies of a parent whose traits get mutated, the other half are
+		// children of a mating whose second parent comes from ANOTHER species (whose goroutine may be
+		// mutating a copy of that very parent at the same time): parents are shared, read-only data
+		o.MutateOnlyProb, o.MateOnlyProb = 0.5, 1
+		o.MutateAddNodeProb, o.MutateAddLinkProb, o.MutateConnectSensors = 0, 0, 0
+		o.MutateRandomTraitProb, o.MutateLinkTraitProb, o.MutateNodeTraitProb, o.MutateLinkWeightsProb = 1, 0, 0, 0
+		o.InterspeciesMateRate = 1
+		o.MateMultipointProb, o.MateMultipointAvgProb, o.MateSinglepointProb = 0.5, 0.5, 0
 	case "mateonly":
 		o.MutateOnlyProb = 0
 		o.InterspeciesMateRate = 0.5
@@ -86,6 +95,7 @@ func c16Scenarios(quick bool) []c16Scenario {
 		{Name: "2 species x 2 offspring, all add-link", HB: two, Profile: "addlink", Policy: "M", Fit: 1},
 		{Name: "3 species x 2 offspring, mixed with mating and interspecies dad", HB: three, Profile: "mixed", Policy: "A", Fit: 2},
 		{Name: "2 species x 2 offspring, mating only (multipoint-avg / single-point)", HB: two, Profile: "mateonly", Policy: "M", Fit: 1},
+		{Name: "2 species x 2 offspring, trait mutation beside interspecies mating", HB: two, Profile: "traits", Policy: "A", Fit: 1},
 		{Name: "2 species x 1 offspring, all add-link with NewLinkTries left unset", HB: hbSpec{Sizes: []int{1, 1}, Ages: []int{1, 1}, Lags: []int{0, 0}}, Profile: "addlink0", Policy: "M", Fit: 1},
 	}
 	if !quick {
